@@ -33,7 +33,9 @@ func whyClass(s string) string {
 
 // runProgCase runs pc, records evidence and reports a violation with signature prefix fam.
 func runProgCase(w *h.W, fam string, pc *h.ProgCase, size int) {
+	w.Guard(pc)
 	res, first, inconc := h.RunProg(pc)
+	w.Unguard()
 	w.Eval(1)
 	w.States(1)
 	w.Transitions(len(res))
